@@ -21,13 +21,11 @@ SEMANTIC_RAISES = {"ConstError", "CheckError", "StopFieldError", "ExplicitError"
 
 FROZEN = {
     ("Union", "parse"): "parse_union is specialised per constant parsefrom at compile time (compile-time sizeof decides the forward/fallback seeks); its position contract is C09.R6",
-    ("Union", "build"): "build_union is an if-chain over members specialised at compile time (flagbuildnone / membership tests per member)",
     ("Switch", "parse"): "cases are registered as lambdas in a generated module-level dict; covered by the dedicated Switch rule",
     ("Switch", "build"): "cases are registered as lambdas in a generated module-level dict; covered by the dedicated Switch rule",
     ("FlagsEnum", "parse"): "the per-flag expression is a join over self.flags; covered by the dedicated FlagsEnum rule",
     ("NamedTuple", "parse"): "the factory is created by a generated module-level statement; covered by the dedicated rule",
-    ("RepeatUntil", "parse"): "the predicate is an inlined expression over obj_/list_ (documented: lambdas only as linked callbacks); loop shape covered by the dedicated rule",
-    ("RepeatUntil", "build"): "see parse",
+    ("RepeatUntil", "build"): "generated code pulls elements with next(iter(obj)) and ignores discard (documented as unsupported); element order covered by the dedicated rule",
     ("Array", "parse"): "generator expression over range(count): covered by the dedicated Array rule; _index is documented as unsupported",
     ("Array", "build"): "see parse",
     ("Hex", "parse"): "display-only wrapper (C12.R5): compiled code returns the plain value, equal by value",
@@ -70,6 +68,9 @@ def simplify(t):
         if len(items) == 1:
             return items[0]
         return ("bool", "or", items)
+    # calling a constructor parameter with (..., context) is evaluating it against the context
+    if k == "call" and t[2] and t[2][-1] == C_ and t[1][0] == "attr" and t[1][1] == ("param", "self"):
+        return ("eval", t[1], C_)
     # Rebuild with a plain callable: userfunction[id](this) is self.func(this)
     if k == "call" and t[1][0] == "sub" and t[1][1] == ("free", "userfunction") and len(t[2]) == 1 and USERFUNC[0] is not None:
         return ("eval", USERFUNC[0], t[2][0])
@@ -244,6 +245,7 @@ def skeleton(p, side, assign, stream, swallow, extra):
         if truth(canon_term(g, side, {}, extra), assign) is False:
             return None
     items = []
+    unbounded = {}
     for e in p.events:
         if e.kind in ("CATCH", "ENDCATCH") or (e.raised and e.kind != "RAISE"):
             return None
@@ -297,8 +299,18 @@ def skeleton(p, side, assign, stream, swallow, extra):
         elif k == "TRY":
             if e["tid"] in swallow:
                 items.append(("TRY", e["handlers"]))
+        elif k == "RETURN" and e.loops and unbounded.get(e.loops[-1]):
+            # leaving an unbounded loop: the exit condition is part of the meaning
+            idx = p.index(e)
+            prev = [x for x in p.events[:idx] if x.kind == "ASSUME" and x.loops == e.loops]
+            if prev:
+                items.append(("EXIT-IF", val(prev[-1]["cond"])))
         elif k == "LOOP":
-            items.append(("LOOP", val(e["iter"])))
+            it = val(e["iter"])
+            if it == N.TRUE or (it[0] == "call" and it[1][0] == "attr" and it[1][2] == "count" and not it[2]):
+                it = ("unbounded",)          # `while True` and `for i in itertools.count()` are the same loop
+                unbounded[e["lid"]] = True
+            items.append(("LOOP", it))
     out = val(p.retval) if so == "return" else ("raise", so)
     # a handler around the member loop and a handler inside it that breaks are the same control flow
     for i in range(len(items) - 1):
